@@ -119,6 +119,93 @@ def gen_adjacent(rng, idx):
     return gw.from_template("func prog@() {\n%s\n}\n" % "\n".join(lines), idx)
 
 
+SC_CORPUS = """type Inner@ struct {
+	X int
+}
+type Mid@ struct {
+	In Inner@
+	N  int
+}
+type Outer@ struct {
+	M Mid@
+	K int
+}
+type Top@ struct {
+	O Outer@
+}
+
+func byval@(o Outer@) int {
+	o.M.In.X = 55
+	o.M.N = 56
+	return o.M.In.X + o.M.N
+}
+
+func prog@() {
+	a := Outer@{M: Mid@{In: Inner@{X: 1}, N: 2}, K: 3}
+	b := a
+	b.M.In.X = 99
+	b.M.N = 98
+	b.K = 97
+	fmt.Println(a.M.In.X, a.M.N, a.K, b.M.In.X, b.M.N, b.K)
+	var c Outer@
+	c = a
+	c.M.In.X = 77
+	fmt.Println(a.M.In.X, c.M.In.X)
+	fmt.Println(byval@(a), a.M.In.X, a.M.N)
+	t := Top@{O: a}
+	u := t
+	u.O.M.In.X = 44
+	fmt.Println(t.O.M.In.X, u.O.M.In.X, a.M.In.X)
+	m := a.M
+	m.In.X = 33
+	fmt.Println(a.M.In.X, m.In.X)
+	t.O = b
+	t.O.M.In.X = 22
+	fmt.Println(b.M.In.X, t.O.M.In.X)
+}
+"""
+
+
+def gen_structcopy(rng, idx):
+    """struct values nested 3-5 levels deep, copied by :=, =, argument passing, field store and sub-struct extraction;
+    the innermost field is written through the copy and read through the original (Go: value semantics at every depth)"""
+    depth = rng.randint(3, 5)
+    names = ["L%d@" % i for i in range(depth)]                # L0 innermost
+    decl = ["type %s struct {\n\tX int\n\tY int\n}" % names[0]]
+    for i in range(1, depth):
+        decl.append("type %s struct {\n\tF %s\n\tN int\n}" % (names[i], names[i - 1]))
+    top = names[-1]
+    path = ".".join(["F"] * (depth - 1))                       # from a top value to the innermost struct
+
+    def lit(i, x):
+        return "%s{X: %d, Y: %d}" % (names[0], x, x + 1) if i == 0 else "%s{F: %s, N: %d}" % (names[i], lit(i - 1, x), i)
+    decl.append("func mut@(v %s) int {\n\tv.%s.X = 500\n\tv.N = 501\n\treturn v.%s.X + v.N\n}" % (top, path, path))
+    body = ["\ta := %s" % lit(depth - 1, rng.randint(1, 9))]
+    n = 0
+    for _ in range(rng.randint(3, 6)):
+        n += 1
+        v, k = "c%d" % n, rng.randint(0, 4)
+        val = rng.randint(10, 99)
+        if k == 0:
+            body += ["\t%s := a" % v, "\t%s.%s.X = %d" % (v, path, val), "\tfmt.Println(a.%s.X, %s.%s.X)" % (path, v, path)]
+        elif k == 1:
+            body += ["\tvar %s %s" % (v, top), "\t%s = a" % v, "\t%s.%s.Y = %d" % (v, path, val),
+                     "\tfmt.Println(a.%s.Y, %s.%s.Y)" % (path, v, path)]
+        elif k == 2:
+            body += ["\tfmt.Println(mut@(a), a.%s.X, a.N)" % path]
+        elif k == 3 and depth >= 3:
+            sub = ".".join(["F"] * rng.randint(1, depth - 2))   # a middle struct: still holds nested structs
+            rest = ".".join(["F"] * (depth - 1 - len(sub.split("."))))
+            body += ["\t%s := a.%s" % (v, sub), "\t%s.%s.X = %d" % (v, rest, val) if rest else "\t%s.X = %d" % (v, val),
+                     "\tfmt.Println(a.%s.X, %s.%sX)" % (path, v, (rest + ".") if rest else "")]
+        else:
+            body += ["\t%s := a" % v, "\ta.%s.X = %d" % (path, val), "\tfmt.Println(a.%s.X, %s.%s.X)" % (path, v, path),
+                     "\ta.F = %s.F" % v, "\ta.%s.Y = %d" % (path, val + 1), "\tfmt.Println(a.%s.Y, %s.%s.Y)" % (path, v, path)]
+    p = gw.from_template("\n".join(decl) + "\nfunc prog@() {\n" + "\n".join(body) + "\n}\n", idx)
+    p["features"] = ["struct-value-copy"]
+    return p
+
+
 def outcome(out, abort):
     """('ok', z) | ('panic',) | ('other', text)"""
     if abort:
@@ -133,7 +220,7 @@ def run(ck):
     quick = ck.tier == "quick"
     ck.cov["rule"] = ("core: every integer kind x every operator at the top (36 programs) + random ones; three variables with boundary/random values, an expression tree of depth 1-3 "
                       "over + - * / (division by a variable that may be zero) printed once; wide: lib/gosub_wide.py clean feature "
-                      "set + operator-adjacency programs (binary operator followed by unary minus / not / dereference, spaced as gofmt prints them; all three modes). distinct_nontrivial = distinct core expressions whose Go run printed a value or panicked + wide programs "
+                      "set + struct-value-copy programs (structs nested 3-5 levels copied by := / = / argument / field store / sub-struct, innermost field written through the copy and read through the original) + operator-adjacency programs (binary operator followed by unary minus / not / dereference, spaced as gofmt prints them; all three modes). distinct_nontrivial = distinct core expressions whose Go run printed a value or panicked + wide programs "
                       "that printed at least one line")
     ck.assume("Go evaluates operands left to right and converts an untyped literal to the operand's kind (Go spec); the reference "
               "semantics go_eval is validated against the real toolchain on every run",
@@ -157,7 +244,10 @@ def run(ck):
     adj = [gw.from_template(ADJ_CORPUS, "adj0")] + [gen_adjacent(ck.rng, "adj%d" % (i + 1)) for i in range(nadj)]
     for p in adj:
         p["features"] = ["operator-adjacency"]
-    wide = adj + wide
+    nsc = 4 if quick else 40
+    sc0 = gw.from_template(SC_CORPUS, "sc0")
+    sc0["features"] = ["struct-value-copy"]
+    wide = adj + [sc0] + [gen_structcopy(ck.rng, "sc%d" % (i + 1)) for i in range(nsc)] + wide
     cc = gw.from_template("func prog@() {\n\tvar x int8 = 127\n\ty := x + (1 + 2)\n\tfmt.Println(y)\n}\n", "kcc")
     if ck.replay_file:
         rp = json.load(open(ck.replay_file))["replay"]
